@@ -42,6 +42,7 @@ class C17(Prop):
         "NV.C17.relocation_members_tied",
         "NV.C17.every_pointer_member_handled",
         "NV.C17.only_switch_keys_are_addresses",
+        "NV.C17.every_block_pointer_recreated",
         "NV.C17.patch_offsets_read_unsigned",
         "NV.C17.qsort_statements_tied",
         "NV.C17.binary_file_roundtrip",
@@ -214,6 +215,7 @@ class C17(Prop):
                     not re.search(r"fread \(\(char \*\) &bin_%s, sizeof \(bin_%s\), 1, f\)" % (nm, nm), lb) or \
                     not re.search(r"uint%s_t bin_%s;" % (drvw if nm == "driver_id" else cfgw, nm), lb):
                 raise X.TieBroken("binaries.c:preamble", "%s is no longer written and read with its own size" % nm)
+        layout += self.gen_block_pointers(lb)
         layout += self.gen_patch_types(src, ic)
         layout += self.gen_functions(src, sv)
         layout += self.gen_relocation(src, lb, ic)
@@ -226,6 +228,41 @@ class C17(Prop):
             "/-- C: check_times() answers 0 (out of date) when `st.st_mtime %s mtime` -/" % op,
             "def checkTimesStrict : Bool := %s" % ("true" if op == ">" else "false"),
         ] + layout)
+
+    def gen_block_pointers(self, lb):
+        """pointer-typed members of the structures that live INSIDE the saved program block (the elements of
+        function_table, function_offsets, function_compressed, inherit, classes, class_members) and how load_binary
+        re-creates each of them; the element type of the pointer tables strings / variable_table"""
+        ph = re.sub(r"/\*.*?\*/", "", open(os.path.join(E.REPO, "lib/lpc/program.h")).read(), flags=re.S)
+        found = []
+        for struct in ("runtime_defined_s", "runtime_inherited_s", "compressed_offset_table_s", "compiler_function_s",
+                       "class_def_s", "class_member_entry_s", "inherit_s"):
+            m = re.search(r"typedef struct %s\s*\{(.*?)\}\s*(\w+);" % struct, ph, re.S)
+            if not m:
+                raise X.TieBroken("program.h:" + struct, "structure %s not found" % struct)
+            for decl in m.group(1).split(";"):
+                decl = " ".join(l for l in decl.splitlines() if not l.strip().startswith("#")).strip()
+                mm = re.match(r"^[\w\s]+?\*+\s*(\w+)$", decl)
+                if mm:
+                    found.append((m.group(2), mm.group(1)))
+        mem = re.search(r"typedef struct program_s\s*\{(.*?)\}\s*program_t;", ph, re.S).group(1)
+        tables = re.findall(r"char\s*\*\*\s*(\w+)\s*;", mem)
+        recreated = []
+        for pat, name in ((r"p->function_table\[i\]\.name = make_shared_string \(buf\);", "compiler_function_t.name"),
+                          (r"p->inherit\[i\]\.prog = ob->prog;", "inherit_t.prog"),
+                          (r"p->strings\[i\] = make_shared_string \(buf\);", "strings[]"),
+                          (r"p->variable_table\[i\] = make_shared_string \(buf\);", "variable_table[]")):
+            if re.search(pat, lb):
+                recreated.append(name)
+
+        def strs(xs):
+            return "[" + ", ".join('"%s"' % x for x in xs) + "]"
+        return ["/-- C: pointer-typed members of the structures stored inside the program block (lib/lpc/program.h) -/",
+                "def blockStructPointers : List String := " + strs("%s.%s" % x for x in found),
+                "/-- C: the `char **` tables of program_t (every element is a pointer) -/",
+                "def blockPointerTables : List String := " + strs(t + "[]" for t in tables),
+                "/-- C: the element pointers load_binary assigns itself after reading the block -/",
+                "def blockPointersRecreated : List String := " + strs(recreated)]
 
     def gen_patch_types(self, src, ic):
         """the C types through which a patch offset travels: recorded by the code generator, read back by patch_out and
